@@ -9,6 +9,7 @@
 package main
 
 import (
+	"bufio"
 	"bytes"
 	"context"
 	"encoding/json"
@@ -17,6 +18,9 @@ import (
 	"net"
 	"net/http"
 	"net/http/httptest"
+	"net/textproto"
+	"os"
+	osexec "os/exec"
 	"strconv"
 	"strings"
 	"sync"
@@ -137,6 +141,44 @@ func gen(g *vh.Gen) {
 			g.Emit("lines", g.Pick("mem", "file"), strings.Join(h, ","))
 		}
 	}
+	// the assembled server (child process: FullAssembly + Services.Start, real SMTP / HTTP / POP3 listeners, Go's default
+	// HTTP client, i.e. with gzip offered): stored sizes around multiples of 32 KiB (copy-buffer boundaries of the HTTP
+	// path) and ordinary hostile bodies
+	overhead := len("Return-Path: <sender@x.org>\r\n") + len("Received: from client.example ([127.0.0.1]) by inbucket\r\n  for <box>; ") + 37 + 2
+	for _, k := range []int{1, 2, 3} {
+		for _, r := range []int{0, 1, 2, 700, 1399, 1400, 32767} {
+			if g.Tier != "thorough" && (k*7+r)%3 == 2 {
+				continue
+			}
+			total := 32768*k + r - overhead // payload bytes as stored (LF line ends)
+			ls := []string{"Subject: sized", ""}
+			total -= len("Subject: sized\n\n")
+			for total > 80 {
+				ls = append(ls, strings.Repeat("abcdefghi ", 7)+"x") // 71 + LF
+				total -= 72
+			}
+			if total > 0 {
+				ls = append(ls, strings.Repeat("y", total-1))
+			}
+			h := make([]string, len(ls))
+			for j, l := range ls {
+				h[j] = vh.HS(l)
+			}
+			g.Emit("asmsrc", g.Pick("mem", "file", "file"), strings.Join(h, ","))
+		}
+	}
+	for i := 0; i < g.N(10, 300); i++ {
+		ls := genLines(g, 200)
+		h := make([]string, len(ls))
+		for j, l := range ls {
+			h[j] = vh.HS(l)
+		}
+		f := "-"
+		if len(h) > 0 {
+			f = strings.Join(h, ",")
+		}
+		g.Emit("asmsrc", g.Pick("mem", "file"), f)
+	}
 	// one transaction, several deliveries: 2-4 recipients (distinct mailboxes, the same one twice): EVERY copy
 	// must carry the client's bytes, through every read interface
 	for i := 0; i < g.N(60, 1500); i++ {
@@ -194,7 +236,14 @@ func pop3FetchN(env *smtpd.Env, mailbox string, n int) (retr []byte, listSize st
 			srv.VerifServe(1, c)
 		}
 	}()
-	c, err := net.Dial("tcp4", ln.Addr().String())
+	retr, listSize, err = pop3Over(ln.Addr().String(), mailbox, n)
+	<-done
+	return retr, listSize, err
+}
+
+// pop3Over fetches message n of the mailbox over a POP3 listener at addr.
+func pop3Over(addr, mailbox string, n int) (retr []byte, listSize string, err error) {
+	c, err := net.Dial("tcp4", addr)
 	if err != nil {
 		return nil, "", err
 	}
@@ -204,7 +253,6 @@ func pop3FetchN(env *smtpd.Env, mailbox string, n int) (retr []byte, listSize st
 	}()
 	c.SetReadDeadline(time.Now().Add(120 * time.Second))
 	out, _ := io.ReadAll(c)
-	<-done
 	// greeting, USER, PASS, LIST 1 are single lines
 	rest := out
 	var lines []string
@@ -272,6 +320,8 @@ func exec(kind string, in []string) []string {
 		wire = vh.U(in[1])
 	case "multi":
 		return execMulti(in)
+	case "asmsrc":
+		return execAsmSrc(in)
 	default:
 		return []string{"UNKNOWN-KIND"}
 	}
@@ -409,4 +459,99 @@ func execMulti(in []string) []string {
 	return []string{strings.Join(smtpd.ReplyTokens(out), ","), cs, hdr + ":" + status}
 }
 
-func main() { vh.Main(gen, exec) }
+// execAsmSrc runs one assembled-system case in a child process (the web router is a process global).
+func execAsmSrc(in []string) []string {
+	cmd := osexec.Command(os.Args[0], "asmsrcchild")
+	cmd.Stdin = strings.NewReader(in[0] + " " + in[1] + "\n")
+	var out, errb bytes.Buffer
+	cmd.Stdout, cmd.Stderr = &out, &errb
+	done := make(chan error, 1)
+	if err := cmd.Start(); err != nil {
+		return []string{"SETUPERR", vh.HS(err.Error())}
+	}
+	go func() { done <- cmd.Wait() }()
+	select {
+	case err := <-done:
+		if err != nil {
+			return []string{"CRASH", vh.HS(errb.String())}
+		}
+	case <-time.After(120 * time.Second):
+		cmd.Process.Kill()
+		return []string{"HANG"}
+	}
+	f := strings.Fields(out.String())
+	if len(f) == 0 {
+		return []string{"NOOUTPUT"}
+	}
+	return f
+}
+
+// asmSrcChild: same observation fields as the `lines` kind, every read through a real listener of the assembled
+// server: REST /source without content coding is the reference ("store source"), then REST and web-UI /source with
+// Go's default client (gzip offered), POP3 RETR / LIST over the real POP3 port, the REST listing's size.
+func asmSrcChild(store, linesField string) {
+	var ls []string
+	if linesField != "-" {
+		for _, h := range strings.Split(linesField, ",") {
+			ls = append(ls, vh.US(h))
+		}
+	}
+	wire := []byte(smtpd.StuffLines(ls))
+	c := smtpd.Cfg{Naming: "local", MaxRcpt: 10, MaxBytes: 50000000, DA: true, DS: true, Store: store}
+	sys, err := smtpd.AsmStart(c)
+	if err != nil {
+		fmt.Println("SETUPERR", vh.HS(err.Error()))
+		return
+	}
+	stream := append([]byte("HELO client.example\r\nMAIL FROM:<sender@x.org>\r\nRCPT TO:<box@y.org>\r\nDATA\r\n"), wire...)
+	stream = append(stream, []byte("QUIT\r\n")...)
+	out, rerr := sys.SMTP(stream)
+	status := "ok"
+	if rerr != nil {
+		status = "err:" + vh.HS(rerr.Error())
+	}
+	replies := strings.Join(smtpd.ReplyTokens(out), ",")
+	hdr := vh.B(smtpd.HdrFacts(decodeWire(wire)).HdrOK)
+	code, listJSON := sys.Get("/api/v1/mailbox/box")
+	var hdrs []struct {
+		ID   string `json:"id"`
+		Size int64  `json:"size"`
+	}
+	if code != 200 || json.Unmarshal(listJSON, &hdrs) != nil || len(hdrs) != 1 {
+		sys.Shutdown()
+		fmt.Println(strings.Join([]string{replies, "NOMSG", "0", "-", "-", "-", "-", "-", hdr + ":" + status}, " "))
+		return
+	}
+	id := hdrs[0].ID
+	_, src := sys.GetIdentity("/api/v1/mailbox/box/" + id + "/source")
+	_, restSrc := sys.Get("/api/v1/mailbox/box/" + id + "/source")
+	_, uiSrc := sys.Get("/serve/mailbox/box/" + id + "/source")
+	retr, popSize, perr := pop3Over(sys.Svc.POP3Server.VerifAddr().String(), "box", 1)
+	if perr != nil {
+		status = "pop3:" + vh.HS(perr.Error())
+	}
+	if !sys.Shutdown() {
+		status = "drain-timeout"
+	}
+	norm := bytes.ReplaceAll(src, []byte("\r\n"), []byte("\n"))
+	fmt.Println(strings.Join([]string{replies, vh.H(smtpd.MaskTimestamp(src, "box")), strconv.Itoa(len(src)),
+		same(restSrc, src), same(uiSrc, src), same(retr, norm), strconv.FormatInt(hdrs[0].Size, 10), popSize, hdr + ":" + status}, " "))
+}
+
+// decodeWire un-stuffs the DATA block (for the header-facts oracle of the child, which has no recording manager).
+func decodeWire(wire []byte) []byte {
+	b, _ := textproto.NewReader(bufio.NewReader(bytes.NewReader(wire))).ReadDotBytes()
+	return b
+}
+
+func main() {
+	if len(os.Args) > 1 && os.Args[1] == "asmsrcchild" {
+		line, _ := bufio.NewReaderSize(os.Stdin, 1<<20).ReadString('\n')
+		f := strings.Fields(line)
+		if len(f) == 2 {
+			asmSrcChild(f[0], f[1])
+		}
+		return
+	}
+	vh.Main(gen, exec)
+}
